@@ -593,3 +593,14 @@ Example acknowledgement_premises_hold :
   valid_datr (w_rx (w_raw 5) 100 1000) /\ has_app [9] (d_appeui (w_dev 5 3)) = true /\
   map (fun d => N.testbit (nth 5 (dl_raw d) 0) 5) (downs (snd (prun [9] 30 (w_st 5 3) (w_prog 5 100 1000) []))) = [true].
 Proof. vm_compute. repeat split; auto; discriminate. Qed.
+
+(* ... and those of the delivery theorem (DeliveryProof.queued_message_is_transmitted): a confirmed message queued for
+   the witness device leaves on its next uplink and the reference device reads it back *)
+From Lospan Require Import Base.AES Spec.RefDevice Proof.DeliveryProof.
+Definition w_msg : dmsg := {| m_eui := 1; m_data := [1; 2; 3]; m_port := 7; m_ack := true; m_created := 5; m_sent := 0; m_acktime := 0; m_fcntup := 0 |}.
+Definition w_stq : dstate := {| ds_row := Some (w_dev 5 3); ds_nonces := []; ds_inbox := []; ds_outbox := [w_msg]; ds_fb := None |}.
+Example delivery_premises_hold :
+  l_get_next_unsent (booked w_stq (w_frame 5) 1) = Some w_msg /\ sendable w_stq /\
+  map (fun d => ref_on_downlink aes_enc w_nwk w_app 19088743 (dl_raw d)) (downs (snd (prun [9] 30 w_stq (w_prog 5 100 1000) [])))
+  = [Some (ConfirmedDataDown, true, 3, Some 7, [1; 2; 3])].
+Proof. vm_compute. repeat split; auto. repeat constructor; discriminate. Qed.
